@@ -1321,6 +1321,8 @@ def models(draw, cfg=None):
     pre = cfg.get("pre")
     if pre:
         pre(g)
+    if not g.env:
+        g.add_input()  # (min_inputs=0 and a planter that declined)
     g.grow(draw(st.integers(cfg.get("min_nodes", 2), cfg.get("max_nodes", 12))))
     return assemble(g, draw, force_outputs=g.__dict__.get("forced", [])[:4])
 
